@@ -101,7 +101,15 @@ def _mod(E):
         ("ghost", "objc", lambda st: fresh("objc", CoefMap)), ("ghost", "solved_with", lambda st: fresh("solved", CoefMap))]
 
 
+def _step_result(eng, st, E):
+    """at a call site: the pair (requested id, a value) - the post-condition ties the value to the solver's objective value"""
+    from pyvc.values import xr_fresh
+    v, c = xr_fresh("step_value")
+    return st.assume(c), VTuple((E["reaction_id"], v))
+
+
 _c1 = Case("known_reaction", requires=_known, ensures=_post)
+_c1.result = _step_result
 _c1.may_raise = "OptimizationError"           # status without primal values: the caller aborts inside `with model`
 _c1.ensures_on_raise = lambda E: z3.BoolVal(True)
 _c1.modifies_on_raise = _mod
